@@ -1763,6 +1763,11 @@ func nonZeroGuard(at ssa.Instruction, y ssa.Value) string {
 			}
 		}
 	}
+	// divisor = len(recv.f) of an object every caller made locally, storing into f (once, at the literal) a collection
+	// known to be non-empty there; neither this function nor the caller assigns f afterwards
+	if why := lenOfLocalObjectField(y); why != "" {
+		return why
+	}
 	// divisor = a field of the receiver / a pointer parameter, checked != 0 by every caller on the object it passes,
 	// and assigned nowhere in this function (cycle.length: `if cycle.length == 0 { return }` before cycle.next())
 	if u, ok := y.(*ssa.UnOp); ok && u.Op == token.MUL {
@@ -1820,6 +1825,102 @@ func nonZeroGuard(at ssa.Instruction, y ssa.Value) string {
 		}
 	}
 	return ""
+}
+
+// lenOfLocalObjectField: y is (a conversion of) len(*(&p.f)) with p a pointer parameter of an unexported function
+// that never stores to f; every call site passes the address of a struct local to the caller whose only uses are
+// field addresses and calls of functions that do not store to f, with exactly one store to f, and the stored collection
+// has a length lower bound >= 1 at that store.
+func lenOfLocalObjectField(y ssa.Value) string {
+	cl, _ := Strip(y).(*ssa.Call)
+	if cl == nil || !isLenCall(cl) {
+		return ""
+	}
+	u, ok := cl.Call.Args[0].(*ssa.UnOp)
+	if !ok || u.Op != token.MUL {
+		return ""
+	}
+	fa, ok := u.X.(*ssa.FieldAddr)
+	if !ok {
+		return ""
+	}
+	pr, ok := fa.X.(*ssa.Parameter)
+	if !ok {
+		return ""
+	}
+	fn := pr.Parent()
+	storesField := func(g *ssa.Function, field int, st types.Type) bool {
+		w := false
+		EachInstr(g, func(in ssa.Instruction) {
+			if s, ok := in.(*ssa.Store); ok {
+				if fa2, ok := s.Addr.(*ssa.FieldAddr); ok && fa2.Field == field && types.Identical(fa2.X.Type(), st) {
+					w = true
+				}
+			}
+		})
+		return w
+	}
+	if storesField(fn, fa.Field, fa.X.Type()) {
+		return ""
+	}
+	pi := -1
+	for i, q := range fn.Params {
+		if q == pr {
+			pi = i
+		}
+	}
+	sites := pkgCallers(fn)
+	if pi < 0 || len(sites) == 0 {
+		return ""
+	}
+	for _, s := range sites {
+		obj, _ := ArgOfParam(s, fn, pi).(*ssa.Alloc)
+		if obj == nil || obj.Parent() != s.Parent() {
+			return ""
+		}
+		var init *ssa.Store
+		n := 0
+		for _, r := range *obj.Referrers() {
+			switch x := r.(type) {
+			case *ssa.FieldAddr:
+				for _, rr := range *x.Referrers() {
+					st, isSt := rr.(*ssa.Store)
+					if isSt && st.Addr == ssa.Value(x) {
+						if x.Field == fa.Field {
+							init = st
+							n++
+						}
+						continue
+					}
+					if _, isLoad := rr.(*ssa.UnOp); isLoad {
+						continue
+					}
+					if x.Field == fa.Field {
+						return "" // the field's address goes elsewhere
+					}
+				}
+			case *ssa.Call:
+				callee := x.Call.StaticCallee()
+				if callee == nil || storesField(callee, fa.Field, fa.X.Type()) || PkgOf(callee) != PkgOf(fn) {
+					return ""
+				}
+			case *ssa.DebugRef:
+			default:
+				return "" // stored whole, captured, passed on: not local any more
+			}
+		}
+		if n != 1 || init == nil {
+			return ""
+		}
+		// the initialising store comes before the call: it dominates it
+		if !init.Block().Dominates(s.Block()) {
+			return ""
+		}
+		if lb, ok := lowerBoundOnLen(init, init.Val); !ok || lb < 1 {
+			return ""
+		}
+	}
+	return "divisor is len(recv.f): every caller passes a local object whose f was initialised once from a collection known to be non-empty; nobody assigns f afterwards"
 }
 
 func positiveGuard(at ssa.Instruction, y ssa.Value) string {
